@@ -234,6 +234,10 @@ class Simple:
         )
 
     def forward_basis(self):
+        # A zero start vector spans nothing: putting it in the basis makes
+        # `proj` divide by zero (NaN) and the loop below never terminates.
+        if approx_equal(self.start, 0):
+            return np.zeros((0, self.dim))
         worklist = [self.start]
         basis = [self.start]
         while worklist:
